@@ -680,6 +680,17 @@ class Verifier:
                         failed.append((full, oname, pc, claim, "not attempted after a confirmed violation of this contract", None, 0.0))
                         continue
                     status, model, dt = it.prove(pc, claim)
+                    if status == "unknown":
+                        # a solver time-out is not a verdict: one retry with a generous budget (a loaded machine must not
+                        # flip a result), and if that is undecided too the obligation is reported as undecided - never
+                        # as a violation
+                        status, model, dt2 = it.prove(pc, claim, timeout_ms=120000)
+                        dt += dt2
+                        if status == "unknown":
+                            rep.downgraded.append({"function": fname, "reason": [f"solver undecided within its budget ({dt:.0f} s): {oname}"],
+                                                   "downgraded": "proof->undecided (solver budget)"})
+                            nob -= 1
+                            continue
                     if not status.startswith("discharged") and model is not None:
                         try:
                             conc = [a.concretize(model, v) for a, v in zip(contract.args, argvalues)]
@@ -971,4 +982,10 @@ class Verifier:
         rep.fail(full, "z3", detail, dt, contract.kind, fname)
         payload = {"contract": fname, "clause": oname, "solver": detail,
                    "note": "obligation is no longer discharged; no failing input was found by the bounded search"}
+        if model is not None:
+            try:
+                # the verifier's counter-model over the harness's symbolic constants (abstract arguments have no native form)
+                payload["counter_model"] = {str(d): str(model[d])[:120] for d in sorted(model.decls(), key=str)[:80] if d.arity() == 0}
+            except Exception:
+                pass
         rep.violation(full, payload, no_input=True)
